@@ -114,7 +114,11 @@ def rescale(case, ctx):
             target = ps / s
             q = p.resample(target)
         else:
-            q = p.rescale(s)
+            # the factor as a Python number or an equal numpy scalar (int8..int64, float32, 0-d array) when exactly
+            # representable
+            s_arg = gen.typed_scalar(s, gen.SCALAR_TYPES[(case["seed"] + m) % len(gen.SCALAR_TYPES)])
+            ctx.tag("scale_type:" + type(s_arg).__name__)
+            q = p.rescale(s_arg)
     after = snapshot(p)
     for a, b in zip(before[:3], after[:3]):
         if not (a.shape == b.shape and a.dtype == b.dtype and np.array_equal(a, b)):
